@@ -200,8 +200,8 @@ func c07Storage(r *Report, add func(v *kViol, ops interface{}, spec string)) {
 			return
 		}
 		if out, err, pan := cold(); err != nil || pan != "" || !bytes.Equal(out, pay) {
-			r.MachineryError = fmt.Sprintf("C07 storage sanity over %s: %v %s", be.name, err, pan)
-			return
+			// (C01's business; the corruption series still runs so that panics / wrong bytes are reported)
+			r.Vacuous = append(r.Vacuous, fmt.Sprintf("C07/storage-%s: a cold factory cannot decrypt the genuine record: %v %s", be.name, err, pan))
 		}
 		muts := mutsOf()
 		n := 0
